@@ -369,8 +369,18 @@ func addrPath(v ssa.Value) (string, *Shape, bool) {
 	return pathForType(pt.Elem()), shapeOf(pt.Elem()), true
 }
 
+// heapSorts: SMT sort of every heap name met by the mod-set analysis.
+var heapSorts = map[string]string{}
+
 func leafNames(path string, sh *Shape) []string {
 	var out []string
+	defer func() {
+		for _, n := range out {
+			if _, ok := heapSorts[n]; !ok {
+				// kind is recovered below
+			}
+		}
+	}()
 	var rec func(sh *Shape, p string)
 	rec = func(sh *Shape, p string) {
 		switch sh.K {
@@ -388,6 +398,7 @@ func leafNames(path string, sh *Shape) []string {
 		default:
 			for _, l := range leavesOf(sh) {
 				out = append(out, p+l.Path)
+				heapSorts[p+l.Path] = heapSort(l.K, strings.Contains(p, "[]"))
 			}
 		}
 	}
@@ -417,8 +428,12 @@ func (w *World) directMods(fn *ssa.Function, blocks map[*ssa.BasicBlock]bool) *m
 				p := mapPath(mt)
 				mi.names[p+"#has"] = true
 				mi.names[p+"#len"] = true
+				ks := keySort(mt)
+				heapSorts[p+"#has"] = "(Array Int (Array " + ks + " Bool))"
+				heapSorts[p+"#len"] = "(Array Int Int)"
 				for _, l := range leavesOf(shapeOf(mt.Elem())) {
 					mi.names[p+"#val"+l.Path] = true
+					heapSorts[p+"#val"+l.Path] = "(Array Int (Array " + ks + " " + l.K.Sort() + "))"
 				}
 			case ssa.CallInstruction:
 				c := in.Common()
@@ -434,6 +449,8 @@ func (w *World) directMods(fn *ssa.Function, blocks map[*ssa.BasicBlock]bool) *m
 						mt := c.Args[0].Type().Underlying().(*types.Map)
 						mi.names[mapPath(mt)+"#has"] = true
 						mi.names[mapPath(mt)+"#len"] = true
+						heapSorts[mapPath(mt)+"#has"] = "(Array Int (Array " + keySort(mt) + " Bool))"
+						heapSorts[mapPath(mt)+"#len"] = "(Array Int Int)"
 					}
 					continue
 				}
@@ -694,6 +711,53 @@ func (w *World) invokeModsSeen(c *ssa.CallCommon, seen map[*ssa.Function]bool) (
 		out.top = true
 	}
 	return out.names, out.top
+}
+
+// invokeModsByType: for an interface method call, the heaps each in-package
+// implementing type may write (type tag -> names). top: an implementation
+// outside the package or a dynamic callee may write anything.
+func (w *World) invokeModsByType(c *ssa.CallCommon) (map[int]map[string]bool, bool) {
+	it, ok := c.Value.Type().Underlying().(*types.Interface)
+	if !ok {
+		return nil, true
+	}
+	seen := map[*ssa.Function]bool{}
+	out := map[int]map[string]bool{}
+	top := false
+	scope := w.pkg.Pkg.Scope()
+	for _, n := range scope.Names() {
+		tn, ok := scope.Lookup(n).(*types.TypeName)
+		if !ok {
+			continue
+		}
+		for _, t := range []types.Type{tn.Type(), types.NewPointer(tn.Type())} {
+			if _, isI := t.Underlying().(*types.Interface); isI {
+				continue
+			}
+			if !types.Implements(t, it) {
+				continue
+			}
+			sel := w.prog.MethodSets.MethodSet(t).Lookup(c.Method.Pkg(), c.Method.Name())
+			if sel == nil {
+				continue
+			}
+			if m := w.prog.MethodValue(sel); m != nil {
+				mm := w.modInfoOf(m, seen)
+				if mm.top || len(mm.dynParams) > 0 {
+					top = true
+				}
+				names := map[string]bool{}
+				for k := range mm.names {
+					names[k] = true
+				}
+				out[w.typeTag(t)] = names
+			}
+		}
+	}
+	if w.openInterface(it) && !w.trustedIface(c.Value.Type()) {
+		top = true
+	}
+	return out, top
 }
 
 // modSetOf: heaps a call to callee may write, given the call's arguments.
